@@ -136,6 +136,8 @@ def run(ctx):
     float_dot_siblings(ctx, "R01-e")
     singleton_tuple_comma(ctx, "R01-f")
     special_macro_parsers_check_tokens(ctx, "R01-g")
+    block_unwrappers_look_at_the_label(ctx, "R01-h")
+    synthesised_operators_respect_precedence(ctx, "R01-i")
     C = r.rule("R01-c", "no defaulted sub-rewrite: a RewriteResult / Option<String> returned by a Rewrite method is never turned into "
                         "an empty string (unwrap_or_default, unwrap_or(String::new()), unwrap_or_else(|_| String::new()))")
     latent = {e["fn"]: e["reason"] for e in tab.get("defaulted", [])}
@@ -354,3 +356,83 @@ def special_macro_parsers_check_tokens(ctx, rid):
                     "whether the token was present is ignored, but the printer emits it: `lazy_static! { pub FOO: u32 = 1; }` "
                     "comes out as `pub static ref FOO: u32 = 1;`", [c.loc()])
     r.floor(rid, len(eats), 4, "Parser::eat* calls in parse_lazy_static")
+
+
+def block_unwrappers_look_at_the_label(ctx, rid):
+    """R01-h: a block expression is replaced by its contents only when it has no label"""
+    p, r = ctx.p, ctx.r
+    r.rule(rid, "every function whose *result* derives from the block of an `ExprKind::Block(block, label)` — it hands the contents "
+                "on in place of the block expression (matches::block_can_be_flattened, closures::get_inner_expr, …) — also reads "
+                "the label: `'l: { break 'l v }` without its braces loses the label that `break 'l` names")
+    n = 0
+    for f in p.by_crate["rustfmt_nightly"]:
+        fields = set()
+        for (adt, var, field, mode, bb, line) in f.field_accesses():
+            if adt and adt.endswith("ast::ExprKind") and var == "Block":
+                fields.add(str(field))
+        if "0" not in fields:
+            continue
+        d = f.derived_from(0)
+        from_block = any(x[0] and x[0].endswith("ast::ExprKind") and x[1] == "Block" and str(x[2]) == "0" for x in d["fields"])
+        ret_ty = f.locals[0]
+        if not from_block or not any(t in ret_ty for t in ("ast::Block", "ast::Expr", "Block>", "Expr>")):
+            continue
+        n += 1
+        ok = "1" in fields
+        r.instance(rid, "%s hands on the contents of a block expression" % short(f.id), "ok" if ok else "violation", "%s:%d" % (f.file, f.line),
+                   "reads label: %s" % ok)
+        if not ok:
+            r.violation(rid, "%s unwraps a block expression without looking at its label" % short(f.id),
+                        "the function returns (part of) the block of `ExprKind::Block(block, label)` and never reads `label`: a "
+                        "labeled block body `'l: { .. break 'l v .. }` is flattened and the label is lost (the output does not compile)",
+                        ["%s:%d" % (f.file, f.line)])
+    r.floor(rid, n, 2, "functions returning the contents of a block expression")
+
+
+def synthesised_operators_respect_precedence(ctx, rid):
+    """R01-i: an operator node that rustfmt builds itself gets an operand that cannot be re-associated"""
+    p, r = ctx.p, ctx.r
+    r.rule(rid, "rustfmt synthesises one kind of operator expression — `ExprKind::Try(operand)` for a `try!(operand)` under "
+                "use_try_shorthand — around an operand of arbitrary precedence; either the constructor wraps the operand in "
+                "`ExprKind::Paren` after consulting `Expr::precedence`, or the chain code that prints the operand (the construction "
+                "of `ChainItemKind::Parent { parens, .. }`) derives `parens` from `Expr::precedence`: `try!(a + b)` must not come "
+                "out as `a + b?`.  Any other synthesised operator node is reported as unknown to this rule")
+    OPS = ("Try", "Unary", "Binary", "Cast", "AddrOf", "Field", "MethodCall", "Index", "Await", "Range", "Assign", "AssignOp")
+    makers = []
+    for f in p.by_crate["rustfmt_nightly"]:
+        for bb, i, s in f.stmts():
+            if s[0] == "=" and s[2][0] == "agg" and isinstance(s[2][1], list) and s[2][1][0] == "adt" \
+                    and s[2][1][1] == "rustc_ast::ExprKind" and s[2][1][2] in OPS:
+                makers.append((f, s[2][1][2], s[3], bb))
+    n = 0
+    for f, kind, line, bb in makers:
+        n += 1
+        if kind != "Try":
+            r.instance(rid, "%s builds ExprKind::%s" % (short(f.id), kind), "violation", "%s:%d" % (f.file, line))
+            r.violation(rid, "%s synthesises an ExprKind::%s node" % (short(f.id), kind),
+                        "a new synthesised operator node: nothing establishes that its operand keeps its grouping when printed",
+                        ["%s:%d" % (f.file, line)])
+            continue
+        own = any(c.name.endswith("Expr::precedence") for c in f.calls()) and any(
+            s[0] == "=" and s[2][0] == "agg" and isinstance(s[2][1], list) and s[2][1][0] == "adt" and s[2][1][1] == "rustc_ast::ExprKind"
+            and s[2][1][2] == "Paren" for bb2, i2, s in f.stmts())
+        printer = False
+        for g in p.by_crate["rustfmt_nightly"]:
+            if "chains::" not in g.id:
+                continue
+            for bb2, i2, s in g.stmts():
+                if s[0] == "=" and s[2][0] == "agg" and isinstance(s[2][1], list) and s[2][1][0] == "adt" \
+                        and s[2][1][1].endswith("chains::ChainItemKind") and s[2][1][2] == "Parent":
+                    for op in s[2][2]:
+                        if op[0] != "k":
+                            d = g.derived_from(op[1][0])
+                            if any(c.name.endswith("Expr::precedence") for c in d["calls"]):
+                                printer = True
+        ok = own or printer
+        r.instance(rid, "%s builds ExprKind::Try" % short(f.id), "ok" if ok else "violation", "%s:%d" % (f.file, line),
+                   "operand parenthesised by %s" % ("the constructor" if own else "the chain printer" if printer else "nobody"))
+        if not ok:
+            r.violation(rid, "the operand of a synthesised `?` is printed without regard to its precedence",
+                        "convert_try_mac turns `try!(e)` into `e?` for any `e`, and neither it nor the chain code that prints the "
+                        "operand consults Expr::precedence: `try!(a + b)` becomes `a + b?`, `try!(-x)` becomes `-x?`", ["%s:%d" % (f.file, line)])
+    r.floor(rid, n, 1, "synthesised operator nodes")
